@@ -44,7 +44,9 @@ static std::vector<std::pair<std::string, Val>> offences() {
 		{"arr", V::arr({V::integer(1), V::integer(2)})}, {"map", V::map({{V::str("x"), V::integer(1)}})}, {"bin", V::bin("\x07")},
 		// MsgPack only: values of the length-prefixed ext family (timestamp 96 = ext8) and of the fixext family (timestamp 64), long str/array forms
 		{"ts96", V::ts(-1, 500000000)}, {"ts64", V::ts(1, 5)}, {"ext8", []{ Val v; v.k = Val::Ext; v.ext_type = 5; v.s = "abc"; return v; }()}, {"str8", V::str(std::string(40, 's'))},
-		{"arr16", []{ Val a = Val::arr(); for (int i = 0; i < 17; ++i) a.a.push_back(Val::integer(i)); return a; }()}};
+		{"arr16", []{ Val a = Val::arr(); for (int i = 0; i < 17; ++i) a.a.push_back(Val::integer(i)); return a; }()},
+		// XML only: text given as a CDATA section (numeric and non-numeric)
+		{"cdata_num", []{ Val v = V::str("7"); v.ext_type = 1; return v; }()}, {"cdata_word", []{ Val v = V::str("off"); v.ext_type = 1; return v; }()}};
 }
 static void collect(Val& v, std::vector<Val*>& out, bool root = true) { if (!root) out.push_back(&v); for (auto& e : v.a) collect(e, out, false); for (auto& e : v.m) collect(e.second, out, false); }
 static size_t subtree(const Val& v) { size_t n = 1; for (auto& e : v.a) n += subtree(e); for (auto& e : v.m) n += subtree(e.second); return n; }
@@ -71,6 +73,8 @@ static void typedScenario(bsx::Ctx& c) {
 		int k = c.deviate(1 + static_cast<int>(offs.size()), "offence");
 		if (!k) continue;
 		const auto& of = offs[static_cast<size_t>(k - 1)];
+		if (of.second.k == Val::Str && of.second.ext_type == 1 && arch != tl::Xml) continue;   // CDATA rendering exists in XML only
+		if (of.first == "cdata_num" && orig[i].k != Val::Arr && orig[i].k != Val::Map) continue;   // "7" in CDATA is a well-typed number/text for a scalar: only an offence where a container is expected
 		if (of.second.k == orig[i].k && !(of.first == "bigint")) continue;
 		if (arch != tl::MsgPack && (of.second.k == Val::Bin || of.second.k == Val::Ts || of.second.k == Val::Ext)) continue;
 		if (arch == tl::Xml && (of.second.k == Val::Nil || ((of.second.k == Val::Arr || of.second.k == Val::Map) && (orig[i].k == Val::Arr || orig[i].k == Val::Map)))) continue;
@@ -188,6 +192,8 @@ template <class K> static void stdRun(bsx::Ctx& c, int arch, const KindDesc& kd,
 		int k = c.deviate(1 + static_cast<int>(offs.size()), "offence");
 		if (!k) continue;
 		const auto& of = offs[static_cast<size_t>(k - 1)];
+		if (of.second.k == Val::Str && of.second.ext_type == 1 && arch != tl::Xml) continue;   // CDATA rendering exists in XML only
+		if (of.first == "cdata_num" && orig[i].k != Val::Arr && orig[i].k != Val::Map) continue;   // see above
 		if (of.second.k == orig[i].k && of.first != "bigint") continue;
 		if (arch != tl::MsgPack && (of.second.k == Val::Bin || of.second.k == Val::Ts || of.second.k == Val::Ext)) continue;
 		if (arch == tl::Xml && (of.second.k == Val::Nil || ((of.second.k == Val::Arr || of.second.k == Val::Map) && (orig[i].k == Val::Arr || orig[i].k == Val::Map)))) continue;
@@ -261,6 +267,7 @@ static void body(bsx::Ctx& c) {
 		int k = c.deviate(1 + static_cast<int>(offs.size()), "offence");
 		if (!k) continue;
 		const auto& of = offs[static_cast<size_t>(k - 1)];
+		if (of.second.k == Val::Str && of.second.ext_type == 1 && arch != tl::Xml) continue;   // CDATA rendering exists in XML only
 		if (of.second.k == orig[i].k && of.first != "bigint" && of.first != "negint") continue;
 		if (arch != tl::MsgPack && (of.second.k == Val::Bin || of.second.k == Val::Ts || of.second.k == Val::Ext)) continue;
 		if ((arch == tl::Xml || arch == tl::Csv) && of.second.k == Val::Nil) continue;
